@@ -25,7 +25,7 @@ from concurrent.futures import ThreadPoolExecutor, as_completed
 
 VERIF = os.path.dirname(os.path.abspath(__file__))
 REPO = os.environ.get('VP_REPO', '/repo')
-BUILD = os.path.join(VERIF, 'build')
+BUILD = os.environ.get('VP_BUILD', os.path.join(VERIF, 'build'))
 sys.path.insert(0, VERIF)
 
 # --pointer-overflow-check is NOT in the default set: CBMC 6 turns a failed check into an assumption,
